@@ -247,7 +247,9 @@ func (rw *Rewriter) VisitEnd(node sql.Node) (sql.Node, error) {
 
 func isNow(e sql.Expr) bool {
 	if i, ok := e.(*sql.Ident); ok {
-		return strings.EqualFold(i.Name, "now")
+		// "now" in double quotes is accepted by SQLite as a string literal. A
+		// bare identifier can only be a column reference, never the current time.
+		return i.Quoted && strings.EqualFold(i.Name, "now")
 	} else if s, ok := e.(*sql.StringLit); ok {
 		return strings.EqualFold(s.Value, "now")
 	}
